@@ -123,6 +123,8 @@ def classification_models(tier):
     pairs = NAME_PAIRS_QUICK + (NAME_PAIRS_MORE if tier == "thorough" else [])
     out = []
     for (long_, short), rl, rs, order in itertools.product(pairs, ROLES, ROLES, ("LS", "SL")):
+        if tier != "thorough" and "in_state" in (rl, rs) and (long_, short) != pairs[0]:
+            continue   # quick: the differentiated-input role meets every other role for the first name pair only
         vs = [(long_, rl), (short, rs)]
         if order == "SL":
             vs.reverse()
@@ -165,7 +167,7 @@ def name_models(tier):
 NAME_ROLES = {"state": ("", "", "der({n}) = zz - {n} * time;"), "state_out": ("output ", "", "der({n}) = zz - {n} * time;"),
               "out": ("output ", "", "{n} = 2 * zz + time;"), "plain": ("", "", "{n} = 2 * zz + time;"), "in": ("input ", "", None),
               "in_state": ("input ", "", "der({n}) = zz - {n} * time;"), "par": ("parameter ", " = 2", None), "const": ("constant ", " = 3", None)}
-ROLE_NAMES_QUICK = ["t", "x", "u", "sin", "abs", "self", "eqs", "psi", "lambda", "a_", "time_", "diff"]
+ROLE_NAMES_QUICK = ["t", "x", "sin", "abs", "self", "psi", "lambda", "time_"]
 
 
 def name_role_models(tier):
@@ -204,6 +206,8 @@ DER_ROLES = {"plain": "", "out": "output ", "in": "input "}
 def der_models(tier):
     out = []
     for (role, pre), (use, eqs), order in itertools.product(DER_ROLES.items(), DER_USES.items(), ("first", "last")):
+        if tier != "thorough" and role != "in" and order == "last":
+            continue
         mine = [f"  {pre}Real n1;\n", f"  {pre}Real m1;\n"]
         if order == "last":
             mine.reverse()
@@ -707,6 +711,9 @@ def main():
     items += [("model", "classify", CLASSIFY, "M"), ("model", "names", NAMES, "M"),
               ("model", "repo:Spring", open(REPO + "/test/models/Spring.mo").read(), "Spring"),
               ("model", "repo:Aircraft", open(REPO + "/test/models/Aircraft.mo").read(), "Aircraft")]
+    import gc
+    gc.collect()
+    gc.freeze()   # the workers are forked: keep the collector from touching (= copying) the parent's whole heap in each of them
     for col in run_parallel(work, items, args.jobs):
         rep.merge(col)
     cov = rep.coverage
@@ -720,9 +727,9 @@ def main():
                      f"{len(LITERALS_QUICK) + (len(LITERALS_MORE) if args.tier == 'thorough' else 0)} numeric literal spellings (1..18 significant digits, exponent forms, values whose repr uses exponent notation" + ("; integers beyond 2**53, the smallest subnormal and the largest double" if args.tier == "thorough" else "") + ") "
                      "alone / negated / as factor, divisor, subtrahend, exponent, call argument, next to der(); variable values unbounded reals; "
                      f"classification: {len(classification_models(args.tier))} models with two variables whose names contain one another ({len(NAME_PAIRS_QUICK) + (len(NAME_PAIRS_MORE) if args.tier == 'thorough' else 0)} name pairs) "
-                     "in all 8x8 role combinations (state, state+output, output, plain, input, differentiated input = input+state, parameter, constant) and both declaration orders, plus one hand-written model; "
+                     "in all 8x8 role combinations (state, state+output, output, plain, input, differentiated input = input+state, parameter, constant" + ("" if args.tier == "thorough" else "; quick: the differentiated input meets every role for the first name pair only") + ") and both declaration orders, plus one hand-written model; "
                      f"der(): {len(der_models(args.tier))} models applying der() to a plain variable / an output / an input in {len(DER_USES)} operand positions (lhs, factor, negated, call argument, power base, divisor, "
-                     "twice, next to the variable's value, next to der() of a sibling) with an undifferentiated sibling of the same role declared before or after; "
+                     "twice, next to the variable's value, next to der() of a sibling) with an undifferentiated sibling of the same role declared after it" + (" or before it" if args.tier == "thorough" else " (inputs: or before it)") + "; "
                      f"names: {len(NAME_SINGLES)} single names (Python builtins, the generator's clash list, names used by the generated module, underscores, Python keywords, self/sympy/mech) and "
                      f"{len(NAME_PAIRS)} pairs name / name_ ; {len(name_role_models(args.tier))} models giving each of {len(name_role_models(args.tier)) // len(NAME_ROLES)} names every one of {len(NAME_ROLES)} roles in equations that use time "
                      "(factor, power base, call argument, alone) and a call; "
